@@ -6,6 +6,7 @@ import (
 	"go/constant"
 	"go/token"
 	"go/types"
+	"os"
 	"sort"
 	"strings"
 )
@@ -910,6 +911,11 @@ func SortedKeys[T any](m map[string]T) []string {
 // address is taken are not tracked; on state explosion the tracking is given
 // up (plain reachability, a superset).
 func (g *Graph) ReachFromTracked(from *V, startAt bool, avoid *Avoid) map[*V]bool {
+	if g.trackGaveUp {
+		// the state space of this function exceeded the bound before: the
+		// part before `from` is the same for every query, so it would again
+		return g.reachPlain(from, startAt, avoid)
+	}
 	env := &ByteEnv{Info: g.Info, Tables: map[types.Object][]int64{}}
 	if g.Fn != nil {
 		env.Prog = g.Fn.Prog
@@ -985,6 +991,10 @@ func (g *Graph) ReachFromTracked(from *V, startAt bool, avoid *Avoid) map[*V]boo
 			push(e.To, g.refineNil(x, e.Label, store, env.only), nextPassed)
 		}
 		if len(seen) > 12000 {
+			if os.Getenv("PDFVERIF_DEBUG_FLAGS") != "" && g.Fn != nil {
+				fmt.Fprintf(os.Stderr, "flag tracking given up in %s (%d flag variables)\n", g.Fn.Key, len(g.flagVars))
+			}
+			g.trackGaveUp = true
 			return g.reachPlain(from, startAt, avoid)
 		}
 	}
